@@ -338,7 +338,7 @@ impl<'a, 'tcx> BV<'a, 'tcx> {
                         out
                     }
                     ty::Ref(_, inner, _)
-                        if matches!(inner.kind(), ty::Adt(d, _) if d.is_enum() && d.variants().iter().all(|v| v.fields.is_empty())) =>
+                        if matches!(inner.kind(), ty::Adt(d, _) if d.is_enum()) =>
                     {
                         // `&Enum::Variant` (a promoted temporary): the variant built in the promoted body
                         let mut out = format!("const<{}>", ty_short(self.tcx, ty));
